@@ -429,6 +429,9 @@ func checkC12(c C12Case) (vs []*Violation) {
 				for k := 0; k < m.Toggles; k++ {
 					on = !on
 					doMutation(i, on)
+					// the mutator asks for its own target right after the change has returned: nobody
+					// else changes this target, so the answer must be the new state
+					judgeChanging(targets[i], false, "GET")
 					if k%8 == 0 {
 						runtime.Gosched()
 					}
